@@ -247,7 +247,7 @@ Lemma complete_dead r c f fc rest top vals :
 Proof.
   intros G D EF EP ED EV LB c4. pose proof G as (C & X & St & E & M & MR & SU).
   split; [|apply (good_upd r c c4 G); exact SU].
-  eapply StepsCont; [|apply StepsRefl].
+  apply steps_cont_upd.
   unfold do_iter. rewrite X, C, SU, EF, St.
   destruct frame_fuel_S as [k Hk]. rewrite Hk. cbn [frame_next]. rewrite EF.
   assert (A1 : at_end f = true) by (unfold at_end; apply Nat.eqb_eq; lia).
@@ -333,11 +333,11 @@ Proof. unfold compile_block. cbn [compile_block_from compile_stmt app]. rewrite 
 Lemma frame_fuel_SS : exists k, frame_fuel = S (S k).
 Proof. destruct frame_fuel as [|[|k]] eqn:E; [exfalso; unfold frame_fuel in E; lia|exfalso; unfold frame_fuel in E; lia|eauto]. Qed.
 
-Lemma virtual_start r rv r' : do_iter r = do_iter rv -> Steps rv r' -> r' <> rv -> Steps r r'.
+Lemma virtual_start r rv r' : do_iter r = do_iter rv -> cfg_same r rv -> Steps rv r' -> r' <> rv -> Steps r r'.
 Proof.
-  intros E S N. inversion S; subst; [contradiction| |].
-  - eapply StepsExec; [rewrite E; eassumption|assumption].
-  - eapply StepsCont; [rewrite E; eassumption|assumption].
+  intros E CF S N. inversion S; subst; [contradiction| |].
+  - eapply StepsExec; [rewrite E; eassumption|eapply cfg_trans; eassumption|assumption].
+  - eapply StepsCont; [rewrite E; eassumption|eapply cfg_trans; eassumption|assumption].
 Qed.
 
 Lemma logmsg_upd_cur r a d : logmsg (upd_cur r a) d = upd_cur (logmsg r d) a.
@@ -444,7 +444,7 @@ Lemma complete_loop r c f fc rest b top2 vals :
 Proof.
   intros G D EF EP EX ED (b' & HE) LB c4. pose proof G as (C & X & St & E & M & MR & SU).
   split; [|apply (good_upd r c c4 G); exact SU].
-  eapply StepsCont; [|apply StepsRefl].
+  apply steps_cont_upd.
   unfold do_iter. rewrite X, C, SU, EF, St.
   destruct frame_fuel_S as [k Hk]. rewrite Hk. cbn [frame_next]. rewrite EF.
   assert (A1 : at_end f = false) by (unfold at_end; apply Nat.eqb_neq; lia).
@@ -1298,7 +1298,7 @@ Proof.
       { exact SK1. } { exists i0, code'. split; assumption. }
       { cbn. rewrite (moved_ns _ _ MV1), ENS, (kept_ns _ _ Ka). reflexivity. }
       { rewrite (kept_base _ _ Ka). exact HBf. }
-      exists r4, c4, fc4, rest4. split; [eapply steps_trans; [exact S1|eapply virtual_start; [exact LBk|exact S4|exact N4]]|].
+      exists r4, c4, fc4, rest4. split; [eapply steps_trans; [exact S1|eapply virtual_start; [exact LBk|apply cfg_upd_cur|exact S4|exact N4]]|].
       split.
       { destruct G0 as (C0 & _). destruct M4 as ((C4 & _) & EF4 & _). eapply neq_by_frames; [exact C0|exact C4|].
         rewrite EF4, EF0. cbn. rewrite (forall2_length _ _ _ KR4), (forall2_length _ _ _ Kb). lia. }
@@ -1368,7 +1368,7 @@ Proof.
     { exists i0, code'. split; assumption. }
     { cbn. rewrite (moved_ns _ _ MV1), ENS, (kept_ns _ _ Ka). reflexivity. }
     { rewrite (kept_base _ _ Ka). exact HBf. }
-    exists r4, c4, fc4, rest4. split; [eapply steps_trans; [exact S1|eapply virtual_start; [exact LBk|exact S4|exact N4]]|].
+    exists r4, c4, fc4, rest4. split; [eapply steps_trans; [exact S1|eapply virtual_start; [exact LBk|apply cfg_upd_cur|exact S4|exact N4]]|].
     split.
     { destruct G0 as (C0 & _). destruct M4 as ((C4 & _) & EF4 & _). eapply neq_by_frames; [exact C0|exact C4|].
       rewrite EF4, EF0. cbn. rewrite (forall2_length _ _ _ KR4), (forall2_length _ _ _ Kb). lia. }
